@@ -22,7 +22,8 @@ RULE = (
 ASSUMPTIONS = [
     "edge lengths are taken from the parsed file: vertex distance for straight edges, R * theta of the circle through "
     "the three points of an `arc` entry for curved ones (arc points 5-30 % of the chord off the edge)",
-    "size sequences compare with relative tolerance 1e-6; preserved sizes with 1e-6 relative",
+    "size sequences compare with relative tolerance 1e-6; preserved sizes with 1e-6 relative plus the effect of the 8 printed "
+    "decimals of the vertices on the edge's length (4e-8 / L; twice when the reference value itself is read off an edge)",
     "a chop whose size/ratio combination cannot be realised on some edge may be rejected with a ValueError (counted)",
 ]
 
@@ -186,8 +187,10 @@ def check_written(case, built, text, ctx: Ctx, check_preserve: bool):
                 ref = named if named is not None else vals[0]
                 # vertices are printed with 8 decimals: allow that rounding of the edge length
                 tol = lambda L: TOLR + 4e-8 / L  # noqa: E731
+                # a reference value read off the first edge carries that edge's rounding as well
+                ref_tol = 0.0 if named is not None else tol(lengths[0])
                 for (oi, la, k, v), L in zip(sizes_at_end, lengths):
-                    if abs(v - ref) > tol(L) * max(abs(ref), abs(v)):
+                    if abs(v - ref) > (tol(L) + ref_tol) * max(abs(ref), abs(v)):
                         raise Violation(
                             "preserved-size-not-realised",
                             f"preserve={pres}: block {oi} axis {la} edge #{k} has {v} at the preserved end, expected {ref}"
